@@ -56,10 +56,13 @@ CLAIMED = {
         "give shorthand_formula: for every known shorthand and every root with any accidentals the parsed chord starts on the "
         "root and each note is on the formula's letter and semitone distance. plain_parse, alias_interchangeable (all alias "
         "spellings of every key), unknown_shorthand and bad_root are unbounded in the root; constructible = meaningful and "
-        "same meaning => same builder are whole-table facts; slash and polychord semantics are kernel evaluations over a "
-        "stated finite domain (all keys x 21 roots x 4 basses; 14x14 shorthands x 6 root pairs).",
-   note=TRUST + "Slash/polychord clauses are finite-domain theorems, tied beyond that domain by the correspondence only. One defect "
-        "repaired by a fix: commit (a771e68).",
+        "same meaning => same builder are whole-table facts; slash_parse and poly_parse (C06Poly.lean, unbounded: for EVERY "
+        "known shorthand, every root and every bass note name with any accidentals 'root k / bass' is the bass followed by the "
+        "chord; for EVERY pair of known shorthands and roots 'X|Y' is Y's notes followed by X's, a note equal to the one just "
+        "before it not repeated - from the parser's definition: normalize_barrier, scanRest_lastSlash, not_exception, poly_step) "
+        "and kernel evaluations over a finite domain for nested forms.",
+   note=TRUST + "Nested slash/polychord forms (a polychord whose halves are slash chords or polychords) are finite-domain "
+        "evaluations, tied beyond that by the correspondence only. One defect repaired by a fix: commit (a771e68).",
    design="§4 C06"),
  "C07": dict(
    text="recognise_all: kernel evaluation of the whole stated domain - every constructible shorthand x the 21 roots with at most "
